@@ -775,9 +775,10 @@ func (e *Engine) MessageReceived(ctx context.Context, p peer.ID, m bsmsg.BitSwap
 	for _, entry := range cancels {
 		c := entry.Cid
 		log.Debugw("Bitswap engine <- cancel", "local", e.self, "from", p, "cid", c)
-		if e.peerLedger.CancelWant(p, c) {
-			e.peerRequestQueue.Remove(c, p)
-		}
+		// Always drop the queued task: denied wants and wants evicted by
+		// overflow handling have a task but no ledger entry.
+		e.peerLedger.CancelWant(p, c)
+		e.peerRequestQueue.Remove(c, p)
 	}
 
 	e.lock.Unlock()
